@@ -97,14 +97,17 @@ structure St where
 deriving DecidableEq, Repr
 
 /-- `SolverNLHandlerImpl::OnHeader` followed by `NLProblemBuilder::OnHeader` (objective part):
-    `notify_start_opts`, parse options, `notify_end_opts`, range check, `AddObjs(resulting_nobj)` -/
+    `notify_start_opts`, parse options, `notify_end_opts`, range check, `AddObjs(resulting_nobj)` + `notify_obj_added()` when objectives exist -/
 def onHeader (s0 : Solver) (ops : List OptOp) (n : Nat) : Except Err St :=
   match parseOpts { s0 with optsRead := false } ops with
   | .error e => .error e
   | .ok s1 =>
     let s2 := { s1 with optsRead := true }
     if decide (objnoSpecified s2 > n) && isObjnoSpecified s2 then .error .objnoOutOfRange
-    else .ok ⟨s2, List.replicate (resultingNObj (multiobj s2) (objnoSpecified s2) n) Obj.empty⟩
+    else
+      -- `if (n_objs != 0) { builder_.AddObjs(n_objs); notify_obj_added(); }`
+      let nobj := resultingNObj (multiobj s2) (objnoSpecified s2) n
+      .ok ⟨{ s2 with objAdded := s2.objAdded || decide (nobj > 0) }, List.replicate nobj Obj.empty⟩
 
 /-- the segments of an NL file as far as objectives are concerned -/
 inductive Seg where
